@@ -34,6 +34,8 @@ var NearMissLines = []string{
 	`for s := []int{1, 2}; len(s) < 4; {` + "\n}", `for s := []int{1, 2; len(s) < 4; {` + "\n}", `for i := 0; i < len([]int{1, 2}); i++ {` + "\n}", `for i := 0; i < len([]int{1, 2); i++ {` + "\n}",
 	`for _, v := range []int{1, 2} {` + "\n}", `for i, v := range []string{"a" {` + "\n}", `if len([]int{1}) > 0 {` + "\n}", `if len([]int{1) > 0 {` + "\n}", `switch len([]string{"a"}) {` + "\ncase 1:\n}", `switch []int{1}[0] {` + "\ncase 1:\n}",
 	`for i := nmOne(; i < 2; i++ {` + "\n}", `for i := 0; i < nmStr("a"; i++ {` + "\n}", `for nmB && (nmI > 1 {` + "\n}",
+	// the blank identifier in every declaration and assignment form
+	`var _ int`, `var nmX, _ int`, `var _, nmY string`, `var _ = 1`, `var _, _ int`, `_ := 1`, `_, _ = nmTwo()`, `_, nmZ := nmTwo()`, `_ = nmOne()`, `var _ []int`, `for _, _ = range nmL {` + "\n}", `func nmF(_ int) {` + "\n}", `nmStr(_)`,
 	// Go's statement keywords in the last position of the last clause or block
 	`switch nmI {` + "\ncase 1:\nfallthrough\n}", `switch nmI {` + "\ncase 1:\nfallthrough\ndefault:\n}", `switch nmI {` + "\ncase 1:\ndefault:\nfallthrough\n}", `switch nmI {` + "\ncase 1:\nfallthrough\nprint(1)\ncase 2:\n}",
 	`for nmB {` + "\nfallthrough\n}", `if nmB {` + "\nfallthrough\n}", `fallthrough`, `switch nmI {` + "\ncase 1:\ngoto L\n}", `for nmB {` + "\nbreak L\n}", `for nmB {` + "\ncontinue L\n}", `L: for nmB {` + "\nbreak\n}",
